@@ -12,8 +12,8 @@
    message (canonical encoding); [ed_abs] = what the accessors of the dump read back. *)
 From LibcoapV Require Import Base.Tactics Base.Bytes Wire.OptCodec Wire.OptCodecProofs Wire.Pdu
   Wire.PduProofs Wire.Build Edit.EdSpec Edit.EdBytes Edit.EdSpecProofs Edit.EdPatch
-  Edit.EdBytesProofs Edit.EdStart Edit.EdDup Edit.EdBuild Edit.EdResize Edit.EdHeader Edit.EdRefuted
-  Edit.EdExample.
+  Edit.EdBytesProofs Edit.EdStart Edit.EdDup Edit.EdBuild Edit.EdResize Edit.EdHeader Edit.EdSize
+  Edit.EdRefuted Edit.EdExample.
 Local Open Scope Z_scope.
 
 (* ---- refinement: bytes vs. abstract message ---- *)
@@ -189,6 +189,32 @@ Theorem C04_token_succeeds_iff : forall q t,
    used (p_msg (ed_with_token q t)) <= p_max q).
 Proof. exact ed_token_succeeds_iff. Qed.
 Print Assumptions C04_token_succeeds_iff.
+
+(* ---- sizes ---- *)
+
+(* max_size is respected: a message that fits (or has no limit) still does after any edit list *)
+Theorem C04_max_size_respected : forall es q,
+  ed_pwf q -> Forall ed_op_ok es -> ed_size_inv q -> ed_size_inv (snd (ed_run q es)).
+Proof. exact ed_size_inv_run. Qed.
+Print Assumptions C04_max_size_respected.
+
+(* removal never makes the message longer, although the following header may grow by 2 bytes *)
+Theorem C04_remove_not_longer : forall q n,
+  ed_mwf (p_msg q) -> used (p_msg (snd (ed_remove q n))) <= used (p_msg q).
+Proof. exact ed_remove_not_longer. Qed.
+Print Assumptions C04_remove_not_longer.
+
+(* an insertion is refused for lack of space only when the message with the option would exceed
+   max_size - 2: coap_insert_option asks for used_size + shift before it knows how much the
+   following header shrinks (0..2 bytes) *)
+Theorem C04_insert_refusal_conservative : forall q n v,
+  ed_mwf (p_msg q) -> 0 <= n ->
+  fst (add_opt_raw q n v) = false ->
+  (n =? last_num (m_opts (p_msg q))) && negb (repeatable n) = false ->
+  p_max q <> 0 /\
+  p_max q - 2 < used (p_msg (set_opts q (insert_opt n v (m_opts (p_msg q))))).
+Proof. exact ed_add_opt_raw_refusal_conservative. Qed.
+Print Assumptions C04_insert_refusal_conservative.
 
 (* ---- coap_pdu_duplicate_lkd ---- *)
 
